@@ -653,6 +653,9 @@ def r01_caches(ctx, tom):
     # written back to the wrong place / several places (R08f is a necessary condition of the grid model as well)
     from .c08 import r08f
     r08f(ctx)
+    # a coordinate that is wrapped or bounded by the extent of the *other* axis addresses another cell than the grid's (rule shared with C19)
+    from .c19 import r19a
+    r19a(ctx)
 
 
 def run(ctx):
